@@ -81,7 +81,7 @@ def main():
         na.append({"property_id": pid, "reason": NA.get(pid, "check not built yet (build in progress)")})
     m = {
         "version": 1,
-        "setup_cmd": "ln -sfn /repo /verif/.repo-link && cd /verif/harness && cargo build --offline --profile verif --bins",
+        "setup_cmd": "cd /verif && ./check --setup",
         "hooks": {"guard": "rubato_verif",
                   "enable": "cargo feature rubato_verif of the rubato crate, enabled by /verif/harness/Cargo.toml (path dependency on /repo)",
                   "baseline_off_cmd": "cd /repo && cargo test --workspace --no-fail-fast --offline",
